@@ -63,116 +63,34 @@ fn o09a_token_classes_disjoint() {
     kani::assert(lz.decode_literal(b'!') == b'!', "O-09a-tok: '!' decodes to the copy-reference marker");
 }
 
-/// digits-only (optionally one leading '-') and never 0xFF
-fn check_decimal_alphabet(buf: &Vec<u8>, from: usize) {
-    let mut i = from;
-    while i < buf.len() {
-        let b = buf[i];
-        let ok = (b >= b'0' && b <= b'9') || (i == from && b == b'-');
-        kani::assert(ok, "O-09b: append_int emits only decimal digits and an optional leading '-'");
-        i += 1;
-    }
-}
+// The decimal codec (append_int/read_int), N-run and match tokens are proved UNBOUNDED in Verus
+// (contracts/lz_tokens.spec, obligations O-09b, O-09b-r, O-09n, O-09n-d, O-09m, O-09m-d and their round-trip theorems).
+// A full-domain CBMC proof of the same functions does not terminate in 10 min (22 64-bit div/mod circuits), so
+// only this small bounded stand-in is kept here, as a counterexample source for the Verus obligations.
 
-//@ obligation: O-09b
-//@ props: C09 C18
-//@ kind: complete
+//@ obligation: O-09b-k
+//@ props: C09
+//@ kind: bounded
+//@ bound: |x| <= 999 (3 digits)
+//@ tier: thorough
+//@ timeout: 900
 //@ functions: lz_diff::LZDiff::append_int lz_diff::LZDiff::read_int
-//@ claim: for every x with |x| <= 2^32 (callers pass differences of u32 positions / lengths): read_int(append_int(x) ++ non-digit) == (x, number of bytes emitted); output is digits with optional leading '-'; no overflow
+//@ claim: bounded stand-in / counterexample source for O-09b: read_int(append_int(x) ++ terminator) == (x, bytes) for |x| <= 999
 #[kani::proof]
-#[kani::unwind(13)]
-fn o09b_int_text_roundtrip() {
+#[kani::unwind(6)]
+fn o09b_int_text_roundtrip_bounded() {
     let lz = mk(20);
     let x: i64 = kani::any();
-    kani::assume(x >= -(1i64 << 32) && x <= (1i64 << 32));
+    kani::assume(x >= -999 && x <= 999);
     let term: u8 = kani::any();
     kani::assume(term == b',' || term == b'.' || term == N_CODE);
     let mut buf: Vec<u8> = Vec::new();
-    buf.push(b'Q'); // pre-existing content
     lz.append_int(&mut buf, x);
-    let n = buf.len() - 1;
-    kani::cover!(x == -(1i64 << 32), "most negative value reachable");
-    kani::cover!(n == 11, "11-byte rendering reachable");
-    kani::assert(buf[0] == b'Q', "O-09b: append_int preserves existing bytes");
-    kani::assert(n >= 1 && n <= 11, "O-09b: 1..=11 bytes");
-    check_decimal_alphabet(&buf, 1);
+    let n = buf.len();
+    kani::cover!(x == -999, "most negative value reachable");
+    kani::assert(n >= 1 && n <= 4, "O-09b-k: 1..=4 bytes");
     buf.push(term);
-    let (got, used) = lz.read_int(&buf[1..]);
-    kani::assert(got == x, "O-09b: read_int returns the value append_int wrote");
-    kani::assert(used == n, "O-09b: read_int stops at the first non-digit and reports the bytes consumed");
+    let (got, used) = lz.read_int(&buf[..]);
+    kani::assert(got == x, "O-09b-k: read_int returns the value append_int wrote");
+    kani::assert(used == n, "O-09b-k: read_int stops at the first non-digit");
 }
-
-//@ obligation: O-09n
-//@ props: C09 C18
-//@ kind: complete
-//@ functions: lz_diff::LZDiff::encode_nrun lz_diff::LZDiff::decode_nrun
-//@ claim: for every run length 4..=2^31: decode_nrun(encode_nrun(len)) == (len, bytes emitted); bytes are 30, digits, 4 (never 0xFF)
-#[kani::proof]
-#[kani::unwind(13)]
-fn o09n_nrun_roundtrip() {
-    let lz = mk(20);
-    let len: u32 = kani::any();
-    kani::assume(len >= MIN_NRUN_LEN && len <= (1u32 << 31));
-    let mut buf: Vec<u8> = Vec::new();
-    lz.encode_nrun(len, &mut buf);
-    let n = buf.len();
-    kani::cover!(len == 4, "shortest run reachable");
-    kani::assert(n >= 3, "O-09n: starter, >=1 digit, suffix");
-    kani::assert(buf[0] == N_RUN_STARTER_CODE, "O-09n: N-run starts with code 30");
-    kani::assert(buf[n - 1] == N_CODE, "O-09n: N-run ends with N code 4");
-    let mut i = 1usize;
-    while i + 1 < n {
-        kani::assert(buf[i] >= b'0' && buf[i] <= b'9', "O-09n: run length is plain decimal");
-        i += 1;
-    }
-    let (got, used) = lz.decode_nrun(&buf[..]);
-    kani::assert(got == len, "O-09n: decoder returns the run length");
-    kani::assert(used == n, "O-09n: decoder consumes exactly the token");
-}
-
-//@ obligation: O-09m
-//@ props: C09 C18
-//@ kind: complete
-//@ functions: lz_diff::LZDiff::encode_match lz_diff::LZDiff::decode_match
-//@ stubs: std::io::_eprint
-//@ claim: for all ref_pos, pred_pos < 2^31, min_match_len in 5..=32 and every length (explicit >= min_match_len, or to-end): decode_match(encode_match(..), pred_pos) returns (ref_pos, len | u32::MAX, bytes emitted); bytes are digits '-' ',' '.' only
-#[kani::proof]
-#[kani::unwind(13)]
-#[kani::stub(std::io::_eprint, stub_eprint)]
-fn o09m_match_roundtrip() {
-    let mm: u32 = kani::any();
-    kani::assume(mm >= 5 && mm <= 32);
-    let lz = mk(mm);
-    let ref_pos: u32 = kani::any();
-    let pred_pos: u32 = kani::any();
-    kani::assume(ref_pos < (1u32 << 31) && pred_pos < (1u32 << 31));
-    let to_end: bool = kani::any();
-    let len: u32 = kani::any();
-    kani::assume(len >= mm && len < (1u32 << 31));
-    let mut buf: Vec<u8> = Vec::new();
-    lz.encode_match(ref_pos, if to_end { None } else { Some(len) }, pred_pos, &mut buf);
-    let n = buf.len();
-    kani::cover!(to_end, "match-to-end form reachable");
-    kani::cover!(!to_end && ref_pos < pred_pos, "negative position delta with explicit length reachable");
-    kani::assert(n >= 2, "O-09m: at least a digit and the terminator");
-    kani::assert(buf[n - 1] == b'.', "O-09m: match ends with '.'");
-    let mut i = 0usize;
-    let mut commas = 0u32;
-    while i < n {
-        let b = buf[i];
-        kani::assert((b >= b'0' && b <= b'9') || b == b'-' || b == b',' || b == b'.', "O-09m: match bytes are digits - , . only");
-        if b == b',' {
-            commas += 1;
-        }
-        i += 1;
-    }
-    kani::assert(commas == if to_end { 0 } else { 1 }, "O-09m: comma present exactly when a length is present");
-    kani::assert(!lz.is_literal(buf[0]) && buf[0] != N_RUN_STARTER_CODE, "O-09m: a match token is not mistaken for a literal or N-run");
-    let (rp, l, used) = lz.decode_match(&buf[..], pred_pos as usize);
-    kani::assert(rp == ref_pos as usize, "O-09m: decoder recovers the reference position");
-    kani::assert(l == if to_end { u32::MAX } else { len }, "O-09m: decoder recovers the length (or the to-end sentinel)");
-    kani::assert(used == n, "O-09m: decoder consumes exactly the token");
-}
-
-#[allow(dead_code)]
-fn stub_eprint(_args: core::fmt::Arguments<'_>) {}
